@@ -183,8 +183,65 @@ AffineEqRound(p, box) ==
 EntailAlgs == {"affine_geq", "affine_leq", "count_eq", "element_iv", "element_lic", "element_liv",
                "exactly_eq", "exactly_true", "lexicographic_leq", "max_leq", "min_geq", "relation"}
 
+(***************************************************************************)
+(* Explicit definitions of the two circuit constraints, which are not      *)
+(* bound-consistency propagators.                                          *)
+(*  no_sub_cycle: path merging on instantiated successors - paths[i] =     *)
+(*    <<start, end, length>>; an instantiated i whose path still ends at i *)
+(*    is merged with the path starting at its successor j; while the       *)
+(*    merged path is shorter than n-1 its end may not point back to its    *)
+(*    start (the bound equal to start is removed).  The scan is repeated   *)
+(*    while a merge moved the end of a path to an index already scanned.   *)
+(*  scc: check only - the digraph i -> v (v in the domain of i) must be    *)
+(*    strongly connected.                                                  *)
+(***************************************************************************)
+NSCGet(paths, i) == paths[i + 1]
+NSCSet(paths, i, k, v) == [paths EXCEPT ![i + 1][k] = v]
+\* one scan i = from..n-1; state = [ok, box, paths, again]
+RECURSIVE NSCScan(_, _, _)
+NSCScan(st, i, n) ==
+  IF ~st.ok \/ i >= n THEN st
+  ELSE LET box == st.box  paths == st.paths IN
+       IF box[i + 1][1] = box[i + 1][2] /\ NSCGet(paths, i)[2] = i THEN
+          LET j == box[i + 1][1] IN
+          IF j = i /\ n > 1 THEN [st EXCEPT !.ok = FALSE]
+          ELSE LET end    == NSCGet(paths, j)[2]
+                   p1     == NSCSet(paths, i, 2, end)
+                   start  == NSCGet(p1, i)[1]
+                   p2     == NSCSet(p1, j, 1, start)
+                   p3     == NSCSet(p2, start, 2, end)
+                   p4     == NSCSet(p3, end, 1, start)
+                   length == NSCGet(p4, i)[3] + 1 + NSCGet(p4, j)[3]
+                   p5     == NSCSet(NSCSet(NSCSet(NSCSet(p4, i, 3, length), j, 3, length), start, 3, length), end, 3, length)
+               IN IF length < n - 1 THEN
+                     LET lo == IF box[end + 1][1] = start THEN start + 1 ELSE box[end + 1][1]
+                         hi == IF box[end + 1][2] = start THEN start - 1 ELSE box[end + 1][2]
+                         b2 == [box EXCEPT ![end + 1] = <<lo, hi>>]
+                     IN IF lo > hi THEN [st EXCEPT !.ok = FALSE, !.box = b2]
+                        ELSE NSCScan([st EXCEPT !.box = b2, !.paths = p5, !.again = @ \/ end < i], i + 1, n)
+                  ELSE NSCScan([st EXCEPT !.paths = p5], i + 1, n)
+       ELSE NSCScan(st, i + 1, n)
+RECURSIVE NSCRun(_, _)
+NSCRun(st, n) == LET r == NSCScan([st EXCEPT !.again = FALSE], 0, n) IN
+                 IF r.ok /\ r.again THEN NSCRun(r, n) ELSE r
+NoSubCycleStep(box) ==
+  LET n == Len(box)
+      r == NSCRun([ok |-> TRUE, box |-> box, paths |-> [i \in 1..n |-> <<i - 1, i - 1, 0>>], again |-> FALSE], n)
+  IN IF r.ok THEN <<1, r.box>> ELSE <<0, box>>
+
+Arc(box, i, j) == box[i + 1][1] <= j /\ j <= box[i + 1][2]
+RECURSIVE ReachFrom(_, _, _)
+ReachFrom(box, S, fwd) ==
+  LET n == Len(box)
+      T == S \cup {j \in 0..(n - 1) : \E i \in S : IF fwd THEN Arc(box, i, j) ELSE Arc(box, j, i)}
+  IN IF T = S THEN S ELSE ReachFrom(box, T, fwd)
+SccCheck(box) == LET n == Len(box) IN
+                 IF ReachFrom(box, {0}, TRUE) = 0..(n - 1) /\ ReachFrom(box, {0}, FALSE) = 0..(n - 1) THEN <<1, box>> ELSE <<0, box>>
+
 Ideal(alg, p, box) ==
   IF alg = "dummy" THEN <<1, box>>
+  ELSE IF alg = "no_sub_cycle" THEN NoSubCycleStep(box)
+  ELSE IF alg = "scc" THEN SccCheck(box)
   ELSE IF alg = "affine_eq" THEN
        LET r == AffineEqRound(p, box) IN
        IF ~r[1] THEN <<0, box>>
@@ -247,6 +304,9 @@ CallVerdicts(c) ==
           THEN {"C14:not-idempotent"} ELSE {})
     \cup (IF ok /\ c.status2 = -9 THEN {"C04:filter-hung-on-own-output"} ELSE {})
     \cup (IF ok /\ c.status2 = -8 THEN {"C16:index-error-on-own-output"} ELSE {})
+    \* the explicit definitions of the circuit constraints (no listed property: a mismatch is reported as drift)
+    \cup (IF alg \in CircuitAlgs /\ (LET r == Ideal(alg, p, c.inbox) IN (r[1] = 0) # (~ok) \/ (ok /\ r[2] # out))
+          THEN {"DRIFT:circuit-constraint-differs-from-its-explicit-definition"} ELSE {})
     \cup (IF alg = "affine_eq" THEN
              LET r == AffineEqRound(p, c.inbox) IN
              (IF ~r[1] /\ ok THEN {"C14:affine-eq-missed-empty-round"} ELSE {})
